@@ -212,3 +212,25 @@ package keepclient
 // ---------------------------------------------------- C06: index completeness
 //@ func KeepClient.GetIndex property C06 safety -bounds
 //@   ensures result1 == nil ==> string(respBody) == "\n" || strings.HasSuffix(string(respBody), "\n\n")
+
+// ------------------------------------------------------------- C11 (continued)
+// uploadToKeepServer reports exactly one status on every path; the status code
+// and the replicas-stored count come from the response; a nil error is
+// reported only for a 200 answer whose body could be read.
+//@ func KeepClient.uploadToKeepServer property C11 safety -bounds
+//@   at send#1: assert $v.err != nil && $v.statusCode == 0
+//@   at send#2: assert $v.err != nil && $v.statusCode == 0
+//@   at send#3: assert $v.err != nil && $v.statusCode == resp.StatusCode && $v.replicasStored == rep
+//@   at send#4: assert $v.err == nil && resp.StatusCode == 200 && $v.statusCode == 200 && $v.replicasStored == rep && $v.response == response
+//@   at send#5: assert $v.err != nil && $v.statusCode == resp.StatusCode && resp.StatusCode != 200
+
+// PutB computes the locator hash from the very bytes it sends.
+//@ func KeepClient.PutB property C11
+//@   calls KeepClient.PutHB#1: requires $0 == md5hex(string(buffer)) && $1 == buffer
+
+//@ func KeepClient.PutHB property C11
+//@   calls KeepClient.putReplicas#1: requires $0 == hash && $2 == int64(len(buf))
+
+// PutHR refuses oversized blocks before anything is uploaded.
+//@ func KeepClient.PutHR property C11 safety -bounds,-makeslice
+//@   calls KeepClient.putReplicas#1: requires dataBytes <= 67108864 && $0 == hash && $2 == dataBytes
